@@ -4,7 +4,7 @@ from hypothesis import strategies as st
 from ECAgent.Core import Agent, Environment, Model, ComponentNotFoundError
 from ECAgent.Environments import SpaceWorld
 from vf.engine import Violation, InvalidCase
-from vf.fixtures import CompA, CompB, CompC, CompD, check, expect_raises, sized_lists, wone_of
+from vf.fixtures import CompA, CompB, CompC, CompD, CompF, check, expect_raises, sized_lists, wone_of
 
 PROPERTY = "C20"
 BUDGET = {"quick": 2000, "thorough": 5000}
@@ -20,7 +20,7 @@ RULE = ("A fresh class tree per case (2-7 classes created with type() under Agen
 ASSUMPTIONS = ["a class created later starts with no class components and default tag NONE (0), whatever its parent holds",
                "Environment subclasses are instantiated through their own constructors (no explicit tag possible)"]
 
-TYPES = [CompA, CompB, CompC]
+TYPES = [CompA, CompB, CompF]     # CompF instances are falsy
 BASES = [Agent, Environment, SpaceWorld]
 
 
@@ -80,7 +80,7 @@ def _run(case, model):
             exp = comps[i]
             if len(cls) != len(exp):
                 raise Violation("class-len", f"{where}: len({cls.__name__}) = {len(cls)}, expected {len(exp)} ({_names(exp)})")
-            for t in TYPES + [CompD]:
+            for t in TYPES + [CompC, CompD]:
                 got = cls[t]
                 if got is not exp.get(t):
                     raise Violation("class-component-leak" if t not in exp else "class-component-lost",
@@ -92,7 +92,7 @@ def _run(case, model):
                         raise Violation("class-component-lost", f"{where}: get_class_component strict mismatch on {cls.__name__}")
                 else:
                     expect_raises("class-get-strict-error", ComponentNotFoundError, cls.get_class_component, t, throw_error=True)
-            for pair in ((), (CompA, CompB), (CompB, CompC), (CompA, CompB, CompC)):
+            for pair in ((), (CompA, CompB), (CompB, CompF), (CompA, CompB, CompF)):
                 want = all(t in exp for t in pair)
                 if cls.has_class_component(*pair) != want:
                     raise Violation("class-has-allof", f"{where}: {cls.__name__}.has_class_component{tuple(t.__name__ for t in pair)} "
